@@ -18,7 +18,7 @@ const ruleC07 = "objects with 2..12 keys from a set that orders differently by b
 	"Oracle: every repetition on every physical copy returns the same sequence, equal to SPEC (keys ascending byte-wise — cross-checked against the order encoding/json.Marshal prints — arrays by index, union/multi as written, '..' pre-order). " +
 	"Non-trivial: the root object (or an object under it) has >=3 keys whose byte order differs from the order they were generated in. Distinct = distinct (path, document)."
 
-var c07Keys = []string{"a", "B", "aa", "b", "é", "z", "10", "9", "", "￿", "\U00010000", "Z", "ab", "a0", "_", "~", "ä", "é", "A", "1", "-", "a b", "éé", "～"}
+var c07Keys = []string{"shipping_address", "shipping_method", "shipping_zone", "aaaaaaaaa", "aaaaaaaab", "aaaaaaaa", "prefix__10", "prefix__2", "prefix__1", "ééééé1", "ééééé0", "a", "B", "aa", "b", "é", "z", "10", "9", "", "￿", "\U00010000", "Z", "ab", "a0", "_", "~", "ä", "é", "A", "1", "-", "a b", "éé", "～"}
 
 func c07Object(rt *rapid.T, depth int) *gen.DNode {
 	n := 2 + gen.Uniform(rt, "nkeys", 11)
